@@ -248,15 +248,28 @@ Proof.
 Qed.
 Print Assumptions C18_quad_split_tiles.
 
-(* extrude_spec (model of MeshTri1 * MeshLine1, corresponded with the real operator): prism k + l*nt consists of
-   triangle k in layer l (vertex v + l*nv) and the same triangle in layer l+1, for every number of layers *)
+(* extrude_spec over the CELLS of the line mesh (MeshTri1 * MeshLine1): (1) level i carries a layer of wedges iff some
+   element of the line mesh spans exactly the consecutive levels x_i, x_{i+1} (gaps, unused and repeated points of the line
+   mesh create no layer); (2) the l-th layer consists of the prisms k + l*nt, whose first rows are triangle k on that level
+   (vertex v + i*nv) and whose last rows are the same triangle on the next level, nv = number of POINTS of the triangle mesh *)
 Theorem C18_extrude_spec :
-  forall (nv nlayers nt : nat) (t : mat nat) (i l k : nat),
-    Forall (fun row => length row = nt) t -> i < 2 * length t -> l < nlayers - 1 -> k < nt ->
-    nth (k + l * nt) (nth i (extrude_t nv nlayers t) []) 0
-    = if i <? length t then nth k (nth i t []) 0 + l * nv
-      else nth k (nth (i - length t) t []) 0 + nv + l * nv.
-Proof. exact extrude_t_spec. Qed.
+  (forall (pz t0 t1 : list nat) (i : nat),
+     length t0 = length t1 -> i < length (gen_line_levels pz t0 t1) ->
+     (nth i (gen_line_iscell pz t0 t1) false = true <->
+      exists e, e < length t0 /\
+        let a := nth (nth e t0 0) pz 0 in let b := nth (nth e t1 0) pz 0 in
+        nth i (gen_line_levels pz t0 t1) 0 = Nat.min a b /\ nth (i + 1) (gen_line_levels pz t0 t1) 0 = Nat.max a b /\
+        i + 1 < length (gen_line_levels pz t0 t1))) /\
+  (forall (nv nt : nat) (iscell : list bool) (t : mat nat) (i l k : nat),
+     Forall (fun row => length row = nt) t -> i < 2 * length t -> l < length (cell_levels iscell) -> k < nt ->
+     nth (k + l * nt) (nth i (gen_extrude_t nv iscell t) []) 0
+     = if i <? length t then nth k (nth i t []) 0 + nth l (cell_levels iscell) 0 * nv
+       else nth k (nth (i - length t) t []) 0 + nv + nth l (cell_levels iscell) 0 * nv) /\
+  (forall iscell i, In i (cell_levels iscell) <-> i < length iscell /\ nth i iscell false = true).
+Proof.
+  split; [exact line_iscell_spec|]. split; [|exact cell_levels_spec].
+  intros nv nt iscell t i l k. exact (extrude_cells_t_spec nv nt (cell_levels iscell) t i l k).
+Qed.
 Print Assumptions C18_extrude_spec.
 
 (* split_spec, facet carry-over of to_meshtri (independent lookup by np.searchsorted on the keys v0 * nv + v1): for a
@@ -279,7 +292,8 @@ Proof.
 Qed.
 Print Assumptions C18_to_meshtri_boundaries.
 
-(* join_spec / remove_duplicate_nodes (vertices as coordinate tuples, after the code's rounding): the merged point
+(* join_spec / remove_duplicate_nodes for ANY node table t (the code passes ALL node rows, dofs.element_dofs: first- and
+   second-order meshes; points as coordinate tuples, after the code's rounding): the merged point
    table has pairwise distinct columns and exactly the old coordinate tuples; every vertex keeps its coordinates;
    two vertices get the same new number iff they are coordinate-equal; every cell slot keeps its coordinates; in
    m1 + m2 the cells of m1 come first, those of m2 follow, each with its own vertex coordinates *)
